@@ -1,13 +1,1489 @@
 //! Twin-based property drivers (C05, C06, C10, C11, C12, C13, C15, C16, C17, C18).
 
-use crate::gen::Tier;
-use crate::oracle::Outcome;
+use crate::exec::*;
+use crate::gen::*;
+use crate::oracle::{absorb, tier_budget, Outcome};
+use crate::rng::Rng;
 use crate::scenario::*;
 
-pub fn generate2(prop: &str, _seed: u64, _tier: Tier) -> Scenario {
-    panic!("no generator for {}", prop)
+fn base(prop: &str, seed: u64) -> (Rng, Scenario) {
+    let rng = Rng::new(seed);
+    let sc = Scenario {
+        property: prop.to_string(),
+        seed,
+        profile: String::new(),
+        config: Config {
+            kind: Kind::FastIn,
+            f32: false,
+            ratio: 1.0,
+            rate_in: 1,
+            rate_out: 1,
+            max_rel: 1.0,
+            chunk: 1,
+            sub_chunks: 1,
+            channels: 1,
+            sinc_len: 8,
+            oversampling: 1,
+            interp: 0,
+            window: 0,
+            f_cutoff: 0.95,
+            degree: 0,
+            kernel: Kernel::Auto,
+            cpu_mask: 0,
+            mask: None,
+            empty_inactive: false,
+        },
+        signal: Signal::Index,
+        ops: vec![],
+        twin: Twin::None,
+        sim_seconds: 0.0,
+    };
+    (rng, sc)
+}
+
+fn q(tier: Tier, a: usize, b: usize) -> usize {
+    if tier == Tier::Quick {
+        a
+    } else {
+        b
+    }
+}
+
+/// Compare SUT step `ia` with twin step `ib`: result, per-call digest (output bits), getters after.
+fn cmp_step(out: &mut Outcome, prop: &str, clause: &str, a: &StepRec, b: &StepRec, what: &str) -> bool {
+    let same_res = match (&a.res, &b.res) {
+        // n_out == usize::MAX: not observable (allocating wrapper with every channel masked)
+        (StepRes::Proc { n_in: ai, n_out: ao }, StepRes::Proc { n_in: bi, n_out: bo }) => ai == bi && (ao == bo || *ao == usize::MAX || *bo == usize::MAX),
+        (x, y) => x == y,
+    };
+    if !same_res {
+        out.push(prop, clause, a.op, format!("{}: result {:?} vs twin {:?}", what, a.res, b.res));
+        return false;
+    }
+    if a.post != b.post {
+        out.push(prop, clause, a.op, format!("{}: getters after the step {:?} vs twin {:?}", what, a.post, b.post));
+        return false;
+    }
+    if matches!(a.res, StepRes::Proc { .. }) && a.digest != b.digest {
+        out.push(prop, clause, a.op, format!("{}: output samples differ bit-wise from the twin's (call returning {:?})", what, a.res));
+        return false;
+    }
+    true
+}
+
+fn died(out: &mut Outcome, prop: &str, t: &Trace, who: &str) -> bool {
+    if let Some(e) = &t.construct_err {
+        out.push(prop, "call-did-not-complete", 0, format!("{} construction failed: {}", who, e));
+        return true;
+    }
+    if let Some((i, m)) = &t.died {
+        out.push(prop, "call-did-not-complete", *i, format!("{} died: {}", who, m));
+        return true;
+    }
+    false
+}
+
+// =======================================================================================
+// C10  reset equals fresh
+// =======================================================================================
+
+fn gen_c10(seed: u64, tier: Tier) -> Scenario {
+    let (mut rng, mut sc) = base("C10", seed);
+    let dom = Dom::default();
+    sc.config = gen_config(&mut rng, &dom);
+    sc.signal = gen_signal(&mut rng);
+    let n = ops_budget(&sc.config, tier_budget(tier), 6, q(tier, 70, 100), &mut rng);
+    let npre = rng.usize_in(0, (n * 2 / 3).max(1));
+    let mut m = OpMix::swarm(&mut rng, npre);
+    m.w_reset *= 0.3;
+    let (p, mut ops, t) = gen_history(&mut rng, &sc.config, &m);
+    // sprinkle failed calls into the prefix ("whatever happened before")
+    if rng.chance(0.4) && !ops.is_empty() {
+        for _ in 0..rng.usize_in(1, 3) {
+            let at = rng.usize_in(0, ops.len());
+            ops.insert(at, gen_bad_op(&mut rng, &sc.config));
+        }
+    }
+    // a ramp that is set but not consumed, right before the reset
+    if sc.config.kind.is_async() && sc.config.max_rel > 1.0 && rng.chance(0.4) {
+        ops.push(Op::SetRatio { rel: gen_rel(&mut rng, &sc.config, true), ramp: true, relative_api: rng.chance(0.5) });
+    }
+    if sc.config.kind.is_sinc() && rng.chance(0.3) {
+        ops.push(Op::SetChunk { n: gen_chunk(&mut rng, sc.config.chunk) });
+    }
+    let prefix = ops.len();
+    ops.push(Op::Reset);
+    let nsuf = (n - npre.min(n)).clamp(3, 40);
+    let mut m2 = OpMix::swarm(&mut rng, nsuf);
+    m2.w_reset = 0.0;
+    let suffix = if rng.chance(0.5) { gen_ops_uniform(&mut rng, &sc.config, &m2) } else { gen_ops_adversarial(&mut rng, &sc.config, &m2) };
+    ops.extend(suffix);
+    sc.profile = format!("{}+reset+suffix", p);
+    sc.sim_seconds = t;
+    sc.ops = ops;
+    sc.twin = Twin::Reset { prefix };
+    sc
+}
+
+fn eval_c10(sc: &Scenario) -> Outcome {
+    let mut out = Outcome::default();
+    let prefix = match sc.twin {
+        Twin::Reset { prefix } => prefix.min(sc.ops.len().saturating_sub(1)),
+        _ => 0,
+    };
+    let a = run_cfg(&sc.config, &sc.signal, &sc.ops, RunOpts { keep_output: false, ..Default::default() });
+    absorb(&mut out, "C10", &sc.config, &sc.ops, &a, &[]);
+    if died(&mut out, "C10", &a, "instance under test") {
+        return out;
+    }
+    // the reset step
+    let rs = match a.steps.iter().find(|s| s.op == prefix && s.res == StepRes::Reset) {
+        Some(s) => s.clone(),
+        None => return out, // scenario without a reset at `prefix` (minimiser artefact): nothing to compare
+    };
+    let suffix: Vec<Op> = sc.ops[prefix + 1..].to_vec();
+    let b = run_cfg(&sc.config, &sc.signal, &suffix, RunOpts { keep_output: false, start_cursor: rs.cursor, ..Default::default() });
+    absorb(&mut out, "C10", &sc.config, &suffix, &b, &[]);
+    if died(&mut out, "C10", &b, "fresh twin") {
+        return out;
+    }
+    if rs.post != b.init {
+        out.push("C10", "getters-after-reset", prefix, format!("getters after reset {:?} vs freshly constructed {:?}", rs.post, b.init));
+        return out;
+    }
+    out.cov.probe("resets_compared", 1);
+    for s in a.steps.iter().filter(|s| s.op > prefix) {
+        let j = s.op - prefix - 1;
+        match b.steps.get(j) {
+            Some(t) => {
+                if !cmp_step(&mut out, "C10", "suffix-differs-from-fresh", s, t, "after reset") {
+                    break;
+                }
+            }
+            None => break,
+        }
+    }
+    out
+}
+
+// =======================================================================================
+// malformed / boundary op generators (F3, F4)
+// =======================================================================================
+
+pub fn gen_bad_call(rng: &mut Rng) -> BadCall {
+    let delta = *rng.pick(&[-1i8, 1, 1, 2, -2, 3]);
+    let zero = rng.chance(0.2);
+    match rng.below(5) {
+        0 => BadCall::InChannels { delta, zero },
+        1 => BadCall::OutChannels { delta, zero },
+        2 => BadCall::MaskLen { delta, zero },
+        3 => BadCall::InShort { ch: rng.below(8) as u8, missing: *rng.pick(&[1u32, 1, 2, 7, 100, u32::MAX]) },
+        _ => BadCall::OutShort { ch: rng.below(8) as u8, missing: *rng.pick(&[1u32, 1, 2, 7, 100, u32::MAX]) },
+    }
+}
+
+pub fn gen_bad_op(rng: &mut Rng, _cfg: &Config) -> Op {
+    let call = gen_bad_call(rng);
+    let path = match call {
+        BadCall::OutChannels { .. } | BadCall::OutShort { .. } => *rng.pick(&[Path::IntoBuffer, Path::VecIntoBuffer, Path::PartialInto, Path::VecPartialInto, Path::IntoBuffer]),
+        BadCall::InShort { .. } => *rng.pick(&[Path::IntoBuffer, Path::VecIntoBuffer, Path::Wrapper, Path::VecWrapper, Path::IntoBuffer]),
+        _ => *rng.pick(&ALL_PATHS),
+    };
+    Op::Bad { call, path }
+}
+
+pub fn gen_ctl_val(rng: &mut Rng) -> CtlVal {
+    match rng.below(14) {
+        0 => CtlVal::UpperUlp(0),
+        1 => CtlVal::LowerUlp(0),
+        2 => CtlVal::UpperUlp(*rng.pick(&[1i8, 2, 3, -1, -2, -3])),
+        3 => CtlVal::LowerUlp(*rng.pick(&[1i8, 2, 3, -1, -2, -3])),
+        4 => CtlVal::Nan,
+        5 => CtlVal::PosInf,
+        6 => CtlVal::NegInf,
+        7 => CtlVal::Zero,
+        8 => CtlVal::NegZero,
+        9 => CtlVal::Neg(rng.uniform(0.1, 4.0)),
+        10 => CtlVal::Subnormal,
+        11 => CtlVal::Huge,
+        12 => CtlVal::Outside(if rng.chance(0.5) { rng.uniform(1.0, 3.0) } else { rng.uniform(0.1, 1.0) }),
+        _ => CtlVal::Rel(rng.uniform(0.5, 2.0)),
+    }
+}
+
+pub fn gen_chunk_val(rng: &mut Rng, max: usize) -> ChunkVal {
+    match rng.below(6) {
+        0 => ChunkVal::Zero,
+        1 => ChunkVal::One,
+        2 => ChunkVal::Max,
+        3 => ChunkVal::MaxPlus1,
+        4 => ChunkVal::UsizeMax,
+        _ => ChunkVal::N(rng.usize_in(0, 2 * max + 2)),
+    }
+}
+
+// =======================================================================================
+// C13 malformed arguments
+// =======================================================================================
+
+fn gen_c13(seed: u64, tier: Tier) -> Scenario {
+    let (mut rng, mut sc) = base("C13", seed);
+    let dom = Dom { edges: false, ..Dom::default() };
+    sc.config = gen_config(&mut rng, &dom);
+    sc.signal = gen_signal(&mut rng);
+    let n = ops_budget(&sc.config, tier_budget(tier), 6, q(tier, 40, 80), &mut rng);
+    let m = OpMix::swarm(&mut rng, n);
+    let (p, mut ops, t) = gen_history(&mut rng, &sc.config, &m);
+    // fault enumeration: at k points of the live history, a burst of malformed calls (each carrying exactly
+    // one malformation); a failed call changes nothing, so a burst can hold many shapes
+    let points = rng.usize_in(1, 4);
+    let mut idx = Vec::new();
+    for _ in 0..points {
+        let at = rng.usize_in(0, ops.len());
+        let burst = rng.usize_in(1, 6);
+        for _ in 0..burst {
+            ops.insert(at, gen_bad_op(&mut rng, &sc.config));
+        }
+    }
+    for (i, op) in ops.iter().enumerate() {
+        if matches!(op, Op::Bad { .. }) {
+            idx.push(i);
+        }
+    }
+    sc.profile = format!("{}+malformed", p);
+    sc.sim_seconds = t;
+    sc.ops = ops;
+    sc.twin = Twin::Skip { idx };
+    sc
+}
+
+fn expected_bad(cfg: &Config, call: &BadCall, s: &StepRec) -> E {
+    let ch = cfg.channels;
+    match call {
+        BadCall::InChannels { .. } => E::WrongNumberOfInputChannels { expected: ch, actual: s.ctl_bits as usize },
+        BadCall::OutChannels { .. } => E::WrongNumberOfOutputChannels { expected: ch, actual: s.ctl_bits as usize },
+        BadCall::MaskLen { .. } => E::WrongNumberOfMaskChannels { expected: ch, actual: s.ctl_bits as usize },
+        BadCall::InShort { .. } => E::InsufficientInputBufferSize { channel: s.ctl_chunk, expected: s.pre.in_next, actual: s.ctl_bits as usize },
+        BadCall::OutShort { .. } => E::InsufficientOutputBufferSize { channel: s.ctl_chunk, expected: s.pre.out_next, actual: s.ctl_bits as usize },
+    }
+}
+
+/// constructor faults: one invalid argument, documented variant expected
+fn check_constructor_faults(out: &mut Outcome, sc: &Scenario) {
+    use crate::sut::{construct_result, CErr};
+    let mut rng = Rng::new(sc.seed ^ 0xC0175);
+    let mut cfg = sc.config.clone();
+    cfg.kernel = Kernel::Scalar; // cheap
+    cfg.sinc_len = 8;
+    cfg.oversampling = 2;
+    cfg.chunk = cfg.chunk.min(64);
+    let which = rng.below(3);
+    let expect;
+    if cfg.kind.is_async() {
+        if which == 0 {
+            let r = *rng.pick(&[0.0f64, -1.0, -0.0, -1e-300, f64::NEG_INFINITY]);
+            cfg.ratio = r;
+            expect = CErr::InvalidRatio(r.to_bits());
+        } else {
+            let m = *rng.pick(&[0.5f64, 0.9999999999999999, -1.0, 0.0, -0.0]);
+            cfg.max_rel = m;
+            expect = CErr::InvalidRelativeRatio(m.to_bits());
+        }
+    } else {
+        let (i, o) = *rng.pick(&[(0usize, 48000usize), (44100, 0), (0, 0)]);
+        cfg.rate_in = i;
+        cfg.rate_out = o;
+        expect = CErr::InvalidSampleRate { input: i, output: o };
+    }
+    let r = std::panic::catch_unwind(|| if cfg.f32 { construct_result::<f32>(&cfg) } else { construct_result::<f64>(&cfg) });
+    out.cov.fault("F3_constructor_fault", 1);
+    match r {
+        Err(_) => out.push("C13", "constructor-panicked", 0, format!("constructor panicked for {:?} ratio {} max_rel {} rates {}:{} : {}", cfg.kind, cfg.ratio, cfg.max_rel, cfg.rate_in, cfg.rate_out, LAST_PANIC.with(|p| p.borrow().clone()))),
+        Ok(Ok(())) => out.push("C13", "constructor-accepted-invalid", 0, format!("constructor accepted {:?} ratio {} max_rel {} rates {}:{}", cfg.kind, cfg.ratio, cfg.max_rel, cfg.rate_in, cfg.rate_out)),
+        Ok(Err(e)) => {
+            if e != expect {
+                out.push("C13", "constructor-wrong-error", 0, format!("constructor returned {:?}, documented {:?}", e, expect));
+            }
+        }
+    }
+}
+
+fn eval_c13(sc: &Scenario) -> Outcome {
+    let mut out = Outcome::default();
+    check_constructor_faults(&mut out, sc);
+    let a = run_cfg(&sc.config, &sc.signal, &sc.ops, RunOpts { keep_output: false, ..Default::default() });
+    absorb(&mut out, "C13", &sc.config, &sc.ops, &a, &[]);
+    // a panic on a malformed call is this property's own clause
+    if let Some((i, m)) = &a.died {
+        if matches!(sc.ops.get(*i), Some(Op::Bad { .. })) {
+            out.viol.retain(|v| v.clause != "call-did-not-complete");
+            out.push("C13", "malformed-call-panicked", *i, format!("{:?}: {}", sc.ops[*i], m));
+            return out;
+        }
+    }
+    if died(&mut out, "C13", &a, "instance under test") {
+        out.viol.dedup_by(|x, y| x.clause == y.clause);
+        return out;
+    }
+    // per bad call: exact error, nothing written
+    let mut skipped = Vec::new();
+    for s in &a.steps {
+        if let Op::Bad { call, path } = &sc.ops[s.op] {
+            skipped.push(s.op);
+            match &s.res {
+                StepRes::Skipped => continue,
+                StepRes::ProcErr(e) => {
+                    let exp = expected_bad(&sc.config, call, s);
+                    if *e != exp {
+                        out.push("C13", "wrong-error", s.op, format!("{:?} via {:?} returned {:?}, expected {:?}", call, path, e, exp));
+                    }
+                    out.cov.probe(&format!("bad_{}", exp.variant()), 1);
+                }
+                other => out.push("C13", "malformed-call-accepted", s.op, format!("{:?} via {:?} returned {:?}", call, path, other)),
+            }
+            if !s.untouched {
+                out.push("C13", "output-written-by-failed-call", s.op, format!("{:?} via {:?}: output buffers no longer all sentinel", call, path));
+            }
+            if s.pre != s.post {
+                out.push("C13", "getters-changed-by-failed-call", s.op, format!("{:?} -> {:?}", s.pre, s.post));
+            }
+        }
+    }
+    if !out.viol.is_empty() {
+        return out;
+    }
+    // twin that never saw the bad calls
+    let ops_b: Vec<Op> = sc.ops.iter().enumerate().filter(|(i, _)| !skipped.contains(i)).map(|(_, o)| o.clone()).collect();
+    let map: Vec<usize> = (0..sc.ops.len()).filter(|i| !skipped.contains(i)).collect();
+    let b = run_cfg(&sc.config, &sc.signal, &ops_b, RunOpts { keep_output: false, ..Default::default() });
+    absorb(&mut out, "C13", &sc.config, &ops_b, &b, &[]);
+    if died(&mut out, "C13", &b, "twin without the malformed calls") {
+        return out;
+    }
+    for t in &b.steps {
+        let ia = map[t.op];
+        if let Some(s) = a.steps.iter().find(|s| s.op == ia) {
+            if !cmp_step(&mut out, "C13", "state-changed-by-failed-call", s, t, "after malformed call(s)") {
+                break;
+            }
+        }
+    }
+    out
+}
+
+// =======================================================================================
+// C12 control ranges
+// =======================================================================================
+
+fn gen_c12(seed: u64, tier: Tier) -> Scenario {
+    let (mut rng, mut sc) = base("C12", seed);
+    let dom = Dom { edges: false, ..Dom::default() };
+    sc.config = gen_config(&mut rng, &dom);
+    // make "interesting" original/max pairs frequent
+    if rng.chance(0.3) {
+        sc.config.max_rel = *rng.pick(&[1.0, 1.1, 1.5, 2.0, 3.0, 10.0, 1.0000000000000002, 1.41498]);
+    }
+    sc.signal = gen_signal(&mut rng);
+    let n = ops_budget(&sc.config, tier_budget(tier), 5, q(tier, 30, 60), &mut rng);
+    let m = OpMix::swarm(&mut rng, n);
+    let (p, mut ops, t) = gen_history(&mut rng, &sc.config, &m);
+    let points = rng.usize_in(1, 4);
+    for _ in 0..points {
+        let at = rng.usize_in(0, ops.len());
+        // enumerate every class at this point (rejected ones change nothing; accepted ones are valid changes)
+        let mut burst: Vec<Op> = Vec::new();
+        let classes: Vec<CtlVal> = vec![
+            CtlVal::UpperUlp(0),
+            CtlVal::LowerUlp(0),
+            CtlVal::UpperUlp(1),
+            CtlVal::UpperUlp(-1),
+            CtlVal::LowerUlp(1),
+            CtlVal::LowerUlp(-1),
+            CtlVal::UpperUlp(*rng.pick(&[2i8, 3, -2, -3])),
+            CtlVal::LowerUlp(*rng.pick(&[2i8, 3, -2, -3])),
+            CtlVal::Nan,
+            CtlVal::PosInf,
+            CtlVal::NegInf,
+            CtlVal::Zero,
+            CtlVal::NegZero,
+            CtlVal::Neg(rng.uniform(0.1, 4.0)),
+            CtlVal::Subnormal,
+            CtlVal::Huge,
+            CtlVal::Outside(rng.uniform(1.0, 3.0)),
+            CtlVal::Outside(rng.uniform(0.1, 1.0)),
+            CtlVal::Rel(rng.uniform(0.3, 3.0)),
+        ];
+        let full = rng.chance(0.5);
+        for c in classes {
+            if full || rng.chance(0.3) {
+                burst.push(Op::BadRatio { val: c, ramp: rng.chance(0.5), relative_api: rng.chance(0.5) });
+            }
+        }
+        for cv in [ChunkVal::Zero, ChunkVal::One, ChunkVal::Max, ChunkVal::MaxPlus1, ChunkVal::UsizeMax, gen_chunk_val(&mut rng, sc.config.chunk)] {
+            if full || rng.chance(0.3) {
+                burst.push(Op::BadChunk { val: cv });
+            }
+        }
+        // shuffle (Fisher-Yates)
+        for i in (1..burst.len()).rev() {
+            let j = rng.below(i as u64 + 1) as usize;
+            burst.swap(i, j);
+        }
+        // three valid calls follow each burst
+        burst.push(Op::process());
+        burst.push(Op::process());
+        burst.push(Op::process());
+        for (k, b) in burst.into_iter().enumerate() {
+            ops.insert(at + k, b);
+        }
+    }
+    sc.profile = format!("{}+ctl-enumeration", p);
+    sc.sim_seconds = t;
+    sc.ops = ops;
+    sc.twin = Twin::None;
+    sc
+}
+
+fn accept_abs(cfg: &Config, r: f64) -> bool {
+    r.is_finite() && r >= cfg.ratio / cfg.max_rel && r <= cfg.ratio * cfg.max_rel
+}
+fn accept_rel(cfg: &Config, x: f64) -> bool {
+    x.is_finite() && x >= 1.0 / cfg.max_rel && x <= cfg.max_rel
+}
+
+fn eval_c12(sc: &Scenario) -> Outcome {
+    let mut out = Outcome::default();
+    let cfg = &sc.config;
+    let a = run_cfg(cfg, &sc.signal, &sc.ops, RunOpts { keep_output: false, ..Default::default() });
+    absorb(&mut out, "C12", cfg, &sc.ops, &a, &["C12"]);
+    if died(&mut out, "C12", &a, "instance under test") {
+        return out;
+    }
+    // twin ops: rejected calls removed, accepted relative calls replaced by the equivalent absolute call
+    let mut ops_b: Vec<Op> = Vec::new();
+    let mut map: Vec<usize> = Vec::new(); // twin op index -> SUT op index
+    let mut pending_chunk: Option<usize> = None;
+    for s in &a.steps {
+        let op = &sc.ops[s.op];
+        match op {
+            Op::BadRatio { ramp, relative_api, val } => {
+                let v = f64::from_bits(s.ctl_bits);
+                let model_ok = cfg.kind.is_async() && if *relative_api { accept_rel(cfg, v) } else { accept_abs(cfg, v) };
+                out.cov.probe(if model_ok { "ctl_ratio_model_accepts" } else { "ctl_ratio_model_rejects" }, 1);
+                out.cov.probe(&format!("class_{}", match val { CtlVal::UpperUlp(k) => format!("upper{:+}", k), CtlVal::LowerUlp(k) => format!("lower{:+}", k), CtlVal::Rel(_) => "rel".into(), CtlVal::Outside(_) => "outside".into(), CtlVal::Neg(_) => "neg".into(), other => format!("{:?}", other) }), 1);
+                match (&s.res, model_ok) {
+                    (StepRes::CtlOk, true) => {
+                        // equivalent absolute call for the twin
+                        if *relative_api {
+                            let abs = cfg.ratio * v;
+                            if accept_abs(cfg, abs) {
+                                ops_b.push(Op::BadRatio { val: CtlVal::Bits(abs.to_bits()), ramp: *ramp, relative_api: false });
+                            } else {
+                                ops_b.push(op.clone());
+                            }
+                        } else {
+                            ops_b.push(op.clone());
+                        }
+                        map.push(s.op);
+                    }
+                    (StepRes::CtlErr(E::RatioOutOfBounds { .. }), false) if cfg.kind.is_async() => {
+                        if s.pre != s.post {
+                            out.push("C12", "rejected-call-changed-getters", s.op, format!("{:?} -> {:?}", s.pre, s.post));
+                        }
+                    }
+                    (StepRes::CtlErr(E::SyncNotAdjustable), false) if !cfg.kind.is_async() => {}
+                    (res, _) => {
+                        out.push(
+                            "C12",
+                            if model_ok { "in-range-value-rejected" } else { "out-of-range-value-accepted" },
+                            s.op,
+                            format!("{} ({:e}, bits {:#x}) with original {} max {} [{}]: model says {}, call returned {:?}", if *relative_api { "set_resample_ratio_relative" } else { "set_resample_ratio" }, v, s.ctl_bits, cfg.ratio, cfg.max_rel, cfg.kind.name(), if model_ok { "accept" } else { "reject" }, res),
+                        );
+                        return out;
+                    }
+                }
+            }
+            Op::BadChunk { .. } => {
+                let n = s.ctl_chunk;
+                let exp: StepRes = if cfg.kind.is_sinc() {
+                    if n >= 1 && n <= cfg.chunk {
+                        StepRes::CtlOk
+                    } else {
+                        StepRes::CtlErr(E::InvalidChunkSize { max: cfg.chunk, requested: n })
+                    }
+                } else {
+                    StepRes::CtlErr(E::ChunkSizeNotAdjustable)
+                };
+                out.cov.probe(if exp == StepRes::CtlOk { "ctl_chunk_model_accepts" } else { "ctl_chunk_model_rejects" }, 1);
+                if s.res != exp {
+                    out.push("C12", "chunk-size-acceptance", s.op, format!("set_chunk_size({}) on {} with construction chunk {}: expected {:?}, got {:?}", n, cfg.kind.name(), cfg.chunk, exp, s.res));
+                    return out;
+                }
+                if exp == StepRes::CtlOk {
+                    ops_b.push(Op::SetChunk { n });
+                    map.push(s.op);
+                    pending_chunk = Some(n);
+                } else if s.pre != s.post {
+                    out.push("C12", "rejected-call-changed-getters", s.op, format!("{:?} -> {:?}", s.pre, s.post));
+                }
+            }
+            Op::SetChunk { .. } => {
+                if s.res == StepRes::CtlOk {
+                    pending_chunk = Some(s.ctl_chunk);
+                }
+                ops_b.push(op.clone());
+                map.push(s.op);
+            }
+            Op::Reset => {
+                pending_chunk = None;
+                ops_b.push(op.clone());
+                map.push(s.op);
+            }
+            Op::Process { .. } => {
+                if let (Some(n), StepRes::Proc { n_in, n_out }) = (pending_chunk, &s.res) {
+                    let got = if cfg.kind == Kind::SincIn { *n_in } else { *n_out };
+                    if cfg.kind.is_sinc() && got != n && !(cfg.mask.as_ref().map(|m| m.iter().all(|x| !x)).unwrap_or(false)) {
+                        out.push("C12", "accepted-chunk-size-not-applied", s.op, format!("after set_chunk_size({}) the next call consumed/produced {}", n, got));
+                        return out;
+                    }
+                    pending_chunk = None;
+                }
+                ops_b.push(op.clone());
+                map.push(s.op);
+            }
+            _ => {
+                ops_b.push(op.clone());
+                map.push(s.op);
+            }
+        }
+    }
+    let b = run_cfg(cfg, &sc.signal, &ops_b, RunOpts { keep_output: false, ..Default::default() });
+    absorb(&mut out, "C12", cfg, &ops_b, &b, &[]);
+    if died(&mut out, "C12", &b, "twin without the rejected calls") {
+        return out;
+    }
+    for t in &b.steps {
+        let ia = map[t.op];
+        if let Some(s) = a.steps.iter().find(|s| s.op == ia) {
+            if !cmp_step(&mut out, "C12", "rejected-call-changed-state-or-relative-differs-from-absolute", s, t, "vs twin (rejected calls skipped, relative calls replaced by absolute)") {
+                break;
+            }
+        }
+    }
+    out
+}
+
+// =======================================================================================
+// C16 wrappers and partial processing
+// =======================================================================================
+
+fn gen_c16(seed: u64, tier: Tier) -> Scenario {
+    let (mut rng, mut sc) = base("C16", seed);
+    let dom = Dom { edges: false, ..Dom::default() };
+    sc.config = gen_config(&mut rng, &dom);
+    sc.signal = gen_signal(&mut rng);
+    let n = ops_budget(&sc.config, tier_budget(tier) * 0.5, 5, q(tier, 40, 80), &mut rng);
+    let mut m = OpMix::swarm(&mut rng, n);
+    m.p_alt_path = rng.uniform(0.3, 1.0);
+    m.w_partial = rng.uniform(0.1, 0.5);
+    let flush = rng.chance(0.35);
+    if flush {
+        m.w_ratio = 0.0;
+        m.w_reset = 0.0;
+        m.w_chunk = 0.0;
+    }
+    let (p, ops, t) = if flush { ("uniform".to_string(), gen_ops_uniform(&mut rng, &sc.config, &m), 0.0) } else { gen_history(&mut rng, &sc.config, &m) };
+    let mut idx = Vec::new();
+    let mut paths = Vec::new();
+    for (i, op) in ops.iter().enumerate() {
+        if let Op::Process { path, .. } = op {
+            // twin takes another entry path for the same data
+            let mut alt = *rng.pick(&ALL_PATHS);
+            if alt == *path {
+                alt = ALL_PATHS[(ALL_PATHS.iter().position(|x| x == path).unwrap() + 1 + rng.below(7) as usize) % 8];
+            }
+            idx.push(i);
+            paths.push(alt);
+        }
+    }
+    sc.profile = if flush { "paths+flush-liveness".into() } else { format!("{}+paths", p) };
+    sc.sim_seconds = t;
+    sc.ops = ops;
+    sc.twin = Twin::Paths { idx, paths };
+    sc
+}
+
+fn eval_c16(sc: &Scenario) -> Outcome {
+    let mut out = Outcome::default();
+    let cfg = &sc.config;
+    let (idx, paths) = match &sc.twin {
+        Twin::Paths { idx, paths } => (idx.clone(), paths.clone()),
+        _ => (vec![], vec![]),
+    };
+    let mut ops_b = sc.ops.clone();
+    for (i, p) in idx.iter().zip(paths.iter()) {
+        if let Some(Op::Process { path, .. }) = ops_b.get_mut(*i) {
+            *path = *p;
+        }
+    }
+    let a = run_cfg(cfg, &sc.signal, &sc.ops, RunOpts { keep_output: false, ..Default::default() });
+    absorb(&mut out, "C16", cfg, &sc.ops, &a, &["C16"]);
+    if died(&mut out, "C16", &a, "instance under test") {
+        return out;
+    }
+    let b = run_cfg(cfg, &sc.signal, &ops_b, RunOpts { keep_output: false, vec_setters: true, ..Default::default() });
+    absorb(&mut out, "C16", cfg, &ops_b, &b, &["C16"]);
+    if died(&mut out, "C16", &b, "twin (other entry paths)") {
+        return out;
+    }
+    for (s, t) in a.steps.iter().zip(b.steps.iter()) {
+        let what = match (&sc.ops[s.op], &ops_b[t.op]) {
+            (Op::Process { path: pa, valid, .. }, Op::Process { path: pb, .. }) => format!("{:?} vs {:?} (valid frames {:?})", pa, pb, valid),
+            _ => "same op".to_string(),
+        };
+        if let (Op::Process { path: pa, .. }, Op::Process { path: pb, .. }) = (&sc.ops[s.op], &ops_b[t.op]) {
+            out.cov.probe(&format!("path_{:?}", pa), 1);
+            out.cov.probe(&format!("path_{:?}", pb), 1);
+        }
+        if !cmp_step(&mut out, "C16", "paths-disagree", s, t, &what) {
+            return out;
+        }
+    }
+    // bounded liveness of the flush protocol (constant ratio scenarios only)
+    if sc.profile.contains("flush-liveness") && !a.ratio_changed {
+        flush_liveness(&mut out, sc);
+    }
+    out
+}
+
+/// After the last real input, a bounded number of `None` calls delivers every frame the input accounts for.
+fn flush_liveness(out: &mut Outcome, sc: &Scenario) {
+    fn run<T: crate::sut::Flt>(out: &mut Outcome, sc: &Scenario) {
+        let cfg = &sc.config;
+        let mut r = match Runner::<T>::new(cfg, &sc.signal, RunOpts { keep_output: false, ..Default::default() }) {
+            Ok(r) => r,
+            Err(_) => return,
+        };
+        // real input: only full chunks and one partial, no resets
+        let mut real: u64 = 0;
+        for (i, op) in sc.ops.iter().enumerate() {
+            if let Op::Process { valid, .. } = op {
+                if *valid == Some(0) {
+                    continue;
+                }
+                // counts must be observable (the allocating wrappers cannot report them when every channel is masked)
+                let op = &match op {
+                    Op::Process { path, valid, slack_in, slack_out, slices } => Op::Process { path: if path.is_partial() { Path::PartialInto } else { Path::IntoBuffer }, valid: *valid, slack_in: *slack_in, slack_out: *slack_out, slices: *slices },
+                    o => o.clone(),
+                };
+                r.step(i, op);
+                if r.dead() {
+                    return;
+                }
+            }
+        }
+        real += r.trace.total_in;
+        let ratio = cfg.nominal_ratio();
+        let l = cfg.filter_len() as f64;
+        let bound = ratio * (l + 1.0 / ratio + 3.0) + 3.0;
+        let (g, _) = r.getters();
+        let d_out = g.delay as f64;
+        let blk = if cfg.kind.is_fft() { crate::oracle::fft_blocks(cfg).0 as f64 } else { 0.0 };
+        // zeros needed so that C07's bound implies delivery of floor(r * real) + delay frames
+        let zreq = ((bound + d_out + 1.0) / ratio).ceil() + blk + g.in_max as f64;
+        // every None call consumes input_frames_next() >= 1 zero frames, except that FftFixedOut may need no
+        // input for a call (it then delivers from its saved frames): at most 2 * zreq + 10 calls
+        let want = (ratio * real as f64).floor() + d_out;
+        // fixed-input types consume >= 1 zero frame per call, fixed-output types deliver >= 1 frame per call
+        let max_calls = zreq as usize + (want - r.trace.total_out as f64).max(0.0) as usize + 10;
+        let mut calls = 0usize;
+        let consumed0 = r.trace.consumed;
+        let zeros_op = Op::Process { path: Path::PartialInto, valid: Some(0), slack_in: 0, slack_out: 0, slices: false };
+        while (((r.trace.consumed - consumed0) as f64) < zreq && (r.trace.total_out as f64) < want) && calls < max_calls {
+            r.step(sc.ops.len() + calls, &zeros_op);
+            calls += 1;
+            if r.dead() {
+                out.push("C16", "call-did-not-complete", sc.ops.len(), format!("flush call {} died: {:?}", calls, r.trace.died));
+                return;
+            }
+        }
+        out.cov.probe("flush_liveness_checked", 1);
+        out.cov.probe("flush_none_calls", calls as u64);
+        if (r.trace.total_out as f64) < want {
+            out.push(
+                "C16",
+                "flush-bounded-liveness",
+                sc.ops.len(),
+                format!("{} real frames at ratio {}: after {} None calls ({} zero frames) only {} frames delivered, need floor(r*n)+delay = {}", real, ratio, calls, r.trace.consumed - consumed0, r.trace.total_out, want),
+            );
+        }
+    }
+    if sc.config.f32 {
+        run::<f32>(out, sc)
+    } else {
+        run::<f64>(out, sc)
+    }
+}
+
+// =======================================================================================
+// C11 channel independence and masks
+// =======================================================================================
+
+fn gen_c11(seed: u64, tier: Tier) -> Scenario {
+    let (mut rng, mut sc) = base("C11", seed);
+    let dom = Dom { edges: false, masks: false, ..Dom::default() };
+    sc.config = gen_config(&mut rng, &dom);
+    sc.config.channels = rng.usize_in(1, 8);
+    if rng.chance(0.75) {
+        let mut m: Vec<bool> = (0..sc.config.channels).map(|_| rng.chance(0.6)).collect();
+        if rng.chance(0.1) {
+            m.iter_mut().for_each(|x| *x = false);
+        }
+        if rng.chance(0.1) {
+            m.iter_mut().for_each(|x| *x = true);
+        }
+        sc.config.mask = Some(m);
+        sc.config.empty_inactive = rng.chance(0.5);
+    }
+    sc.signal = match rng.below(3) {
+        0 => Signal::Noise { seed: rng.next() },
+        1 => Signal::Impulses { seed: rng.next(), period: rng.usize_in(3, 100) as u32, floor: 0.01 },
+        _ => Signal::Multisine { seed: rng.next() },
+    };
+    let per = tier_budget(tier) / (1.0 + sc.config.channels as f64 * 0.5);
+    let n = ops_budget(&sc.config, per, 5, q(tier, 40, 80), &mut rng);
+    let m = OpMix::swarm(&mut rng, n);
+    let (p, ops, t) = gen_history(&mut rng, &sc.config, &m);
+    sc.profile = format!("{}+mono-twins", p);
+    sc.sim_seconds = t;
+    sc.ops = ops;
+    sc.twin = Twin::Mono;
+    sc
+}
+
+fn eval_c11(sc: &Scenario) -> Outcome {
+    let mut out = Outcome::default();
+    let cfg = &sc.config;
+    let a = run_cfg(cfg, &sc.signal, &sc.ops, RunOpts::default());
+    absorb(&mut out, "C11", cfg, &sc.ops, &a, &["C11"]);
+    if died(&mut out, "C11", &a, "n-channel instance") {
+        return out;
+    }
+    let mut mono = cfg.clone();
+    mono.channels = 1;
+    mono.mask = None;
+    mono.empty_inactive = false;
+    let tol = if cfg.f32 { 1e-6 } else { 1e-12 };
+    let mut first_twin: Option<Trace> = None;
+    for c in 0..cfg.channels {
+        // twins for active channels; for fully masked instances one twin still checks the returned counts
+        if !cfg.active(c) && !(first_twin.is_none() && c + 1 == cfg.channels) {
+            continue;
+        }
+        let b = run_cfg(&mono, &sc.signal, &sc.ops, RunOpts { sig_ch0: c, ..Default::default() });
+        absorb(&mut out, "C11", &mono, &sc.ops, &b, &[]);
+        if died(&mut out, "C11", &b, "mono twin") {
+            return out;
+        }
+        // counts per step equal (with a mask and without)
+        for (s, t) in a.steps.iter().zip(b.steps.iter()) {
+            let same = match (&s.res, &t.res) {
+                (StepRes::Proc { n_in: ai, n_out: ao }, StepRes::Proc { n_in: bi, n_out: bo }) => {
+                    // through the allocating wrappers a fully masked instance cannot report a count
+                    let all_masked = (0..cfg.channels).all(|k| !cfg.active(k));
+                    let wrapper = matches!(&sc.ops[s.op], Op::Process { path, .. } if path.is_wrapper());
+                    (ai == bi && ao == bo) || (all_masked && wrapper && ai == bi)
+                }
+                (x, y) => std::mem::discriminant(x) == std::mem::discriminant(y),
+            };
+            if !same {
+                out.push("C11", "counts-differ-from-mono", s.op, format!("n-channel instance (mask {:?}) returned {:?}, mono twin of channel {} returned {:?}", cfg.mask, s.res, c, t.res));
+                return out;
+            }
+            let all_masked = (0..cfg.channels).all(|k| !cfg.active(k));
+            let wrapper = matches!(&sc.ops[s.op], Op::Process { path, .. } if path.is_wrapper());
+            if !(all_masked && wrapper) && (s.post.in_next != t.post.in_next || s.post.out_next != t.post.out_next) {
+                out.push("C11", "counts-differ-from-mono", s.op, format!("getters after step: n-channel {:?}, mono twin {:?}", s.post, t.post));
+                return out;
+            }
+        }
+        if cfg.active(c) {
+            let ya = &a.out[c];
+            let yb = &b.out[0];
+            if ya.len() != yb.len() {
+                out.push("C11", "stream-length-differs-from-mono", 0, format!("channel {}: {} frames vs mono twin {}", c, ya.len(), yb.len()));
+                return out;
+            }
+            let peak = yb.iter().fold(1.0f64, |m, v| m.max(v.abs()));
+            for (k, (u, v)) in ya.iter().zip(yb.iter()).enumerate() {
+                if (u - v).abs() > tol * peak || u.is_nan() != v.is_nan() {
+                    let step = a.steps.iter().rev().find(|s| s.out_before <= k as u64).map(|s| s.op).unwrap_or(0);
+                    out.push("C11", "channel-differs-from-mono", step, format!("channel {} of {} frame {}: {} vs mono twin {} (tol {:e}, mask {:?})", c, cfg.channels, k, u, v, tol * peak, cfg.mask));
+                    return out;
+                }
+            }
+            out.cov.probe("channels_compared_to_mono", 1);
+        }
+        if first_twin.is_none() {
+            first_twin = Some(b);
+        }
+    }
+    out
+}
+
+// =======================================================================================
+// C17 f32 / f64 agreement
+// =======================================================================================
+
+fn gen_c17(seed: u64, tier: Tier) -> Scenario {
+    let (mut rng, mut sc) = base("C17", seed);
+    let dom = Dom { edges: false, f32: Some(false), ..Dom::default() };
+    sc.config = gen_config(&mut rng, &dom);
+    sc.signal = match rng.below(3) {
+        0 => Signal::Noise { seed: rng.next() },
+        1 => Signal::Impulses { seed: rng.next(), period: rng.usize_in(3, 100) as u32, floor: 0.01 },
+        _ => Signal::Multisine { seed: rng.next() },
+    };
+    let n = ops_budget(&sc.config, tier_budget(tier) * 0.5, 5, q(tier, 50, 120), &mut rng);
+    let m = OpMix::swarm(&mut rng, n);
+    let (p, ops, t) = gen_history(&mut rng, &sc.config, &m);
+    sc.profile = format!("{}+f32-twin", p);
+    sc.sim_seconds = t;
+    sc.ops = ops;
+    sc.twin = Twin::OtherType;
+    sc
+}
+
+fn eval_c17(sc: &Scenario) -> Outcome {
+    let mut out = Outcome::default();
+    let mut c64 = sc.config.clone();
+    c64.f32 = false;
+    let mut c32 = sc.config.clone();
+    c32.f32 = true;
+    let a = run_cfg(&c64, &sc.signal, &sc.ops, RunOpts { round_f32: true, ..Default::default() });
+    absorb(&mut out, "C17", &c64, &sc.ops, &a, &[]);
+    if died(&mut out, "C17", &a, "f64 instance") {
+        return out;
+    }
+    let b = run_cfg(&c32, &sc.signal, &sc.ops, RunOpts { round_f32: true, ..Default::default() });
+    absorb(&mut out, "C17", &c32, &sc.ops, &b, &[]);
+    if died(&mut out, "C17", &b, "f32 instance") {
+        return out;
+    }
+    if a.init != b.init {
+        out.push("C17", "control-sequence-differs", 0, format!("getters after construction: f64 {:?} f32 {:?}", a.init, b.init));
+        return out;
+    }
+    for (s, t) in a.steps.iter().zip(b.steps.iter()) {
+        let same = match (&s.res, &t.res) {
+            (StepRes::Proc { n_in: ai, n_out: ao }, StepRes::Proc { n_in: bi, n_out: bo }) => ai == bi && ao == bo,
+            (x, y) => x == y,
+        };
+        if !same || s.pre != t.pre || s.post != t.post {
+            out.push("C17", "control-sequence-differs", s.op, format!("f64: {:?} {:?}->{:?}; f32: {:?} {:?}->{:?}", s.res, s.pre, s.post, t.res, t.pre, t.post));
+            return out;
+        }
+    }
+    let cfg = &sc.config;
+    let bmul = if cfg.kind.is_sinc() {
+        let l = cfg.sinc_len_rounded() as f64;
+        4.0 * (l * cfg.oversampling as f64).sqrt() + 2.0 * l + 64.0
+    } else {
+        256.0
+    };
+    let mut worst = 0.0f64;
+    for c in 0..cfg.channels {
+        if !cfg.active(c) {
+            continue;
+        }
+        let ya = &a.out[c];
+        let yb = &b.out[c];
+        let peak = ya.iter().fold(1.0f64, |m, v| m.max(v.abs()));
+        let tol = bmul * (f32::EPSILON as f64) * peak;
+        for (k, (u, v)) in ya.iter().zip(yb.iter()).enumerate() {
+            let d = (u - v).abs();
+            if d > worst * tol {
+                worst = d / tol;
+            }
+            if !(d <= tol) {
+                let step = a.steps.iter().rev().find(|s| s.out_before <= k as u64).map(|s| s.op).unwrap_or(0);
+                out.push("C17", "f32-output-off-f64", step, format!("channel {} frame {}: f64 {} f32 {} |diff| {:e} > {} eps_f32 * peak {:e}", c, k, u, v, d, bmul, peak));
+                return out;
+            }
+        }
+    }
+    out.cov.probe("worst_over_half_tolerance", (worst > 0.5) as u64);
+    out
+}
+
+// =======================================================================================
+// C05 chunking / variant independence
+// =======================================================================================
+
+fn dyadic_ratio(rng: &mut Rng) -> f64 {
+    loop {
+        let j = rng.usize_in(0, 6) as i32;
+        let k = rng.usize_in(1, 1 << (j + 4)) as f64;
+        let t = k / (1u64 << j) as f64;
+        if !(1.0 / 16.0..=16.0).contains(&t) {
+            continue;
+        }
+        let r = 1.0 / t;
+        if 1.0 / r == t {
+            return r;
+        }
+    }
+}
+
+fn lcm(a: usize, b: usize) -> usize {
+    fn g(a: usize, b: usize) -> usize {
+        if b == 0 {
+            a
+        } else {
+            g(b, a % b)
+        }
+    }
+    a / g(a, b) * b
+}
+
+fn gen_c05(seed: u64, tier: Tier) -> Scenario {
+    let (mut rng, mut sc) = base("C05", seed);
+    let dom = Dom { edges: false, masks: false, max_channels: 2, ..Dom::default() };
+    let mut a = gen_config(&mut rng, &dom);
+    let nearest = (a.kind.is_sinc() && a.interp % 4 == 0) || (a.kind.is_fast() && a.degree % 5 == 0);
+    if nearest {
+        a.ratio = dyadic_ratio(&mut rng);
+    }
+    let mut b = a.clone();
+    let mode = rng.below(4);
+    let mut steps: Vec<(u64, f64)> = Vec::new();
+    let mut sa: Vec<usize> = Vec::new();
+    let mut sb: Vec<usize> = Vec::new();
+    let mut profile = "chunk-pair";
+    if a.kind.is_fft() {
+        // pairs that resolve to the same FFT block; variants In/Out/InOut
+        let (blk_in, blk_out) = crate::oracle::fft_blocks(&a);
+        let variants = [Kind::FftIn, Kind::FftOut, Kind::FftInOut];
+        b.kind = *rng.pick(&variants);
+        let mult = rng.usize_in(1, 4);
+        match b.kind {
+            Kind::FftIn => {
+                b.sub_chunks = mult;
+                b.chunk = blk_in as usize * mult;
+            }
+            Kind::FftOut => {
+                b.sub_chunks = mult;
+                b.chunk = blk_out as usize * mult;
+            }
+            _ => {
+                b.chunk = blk_in as usize;
+                b.sub_chunks = 1;
+            }
+        }
+        // guard: both must resolve to the same block
+        if crate::oracle::fft_blocks(&b) != (blk_in, blk_out) {
+            b = a.clone();
+        }
+        profile = "fft-same-block";
+    } else if mode == 0 {
+        // variant twin (FixedIn <-> FixedOut), constant ratio
+        b.kind = match a.kind {
+            Kind::SincIn => Kind::SincOut,
+            Kind::SincOut => Kind::SincIn,
+            Kind::FastIn => Kind::FastOut,
+            _ => Kind::FastIn,
+        };
+        b.chunk = gen_chunk(&mut rng, 4096);
+        profile = "variant";
+    } else {
+        b.chunk = gen_chunk(&mut rng, 4096);
+        if a.kind.is_sinc() && rng.chance(0.5) {
+            // mid-stream set_chunk_size schedules
+            let na = rng.usize_in(1, 12);
+            for _ in 0..na {
+                sa.push(gen_chunk(&mut rng, a.chunk));
+            }
+            if rng.chance(0.5) {
+                for _ in 0..rng.usize_in(1, 12) {
+                    sb.push(gen_chunk(&mut rng, b.chunk));
+                }
+            }
+            profile = "set-chunk-schedule";
+        }
+        // stepped ratio changes at positions that are call boundaries in both partitions
+        if a.max_rel > 1.0 && sa.is_empty() && sb.is_empty() && rng.chance(0.5) {
+            let l = lcm(a.chunk, b.chunk);
+            if l <= 20_000 {
+                let n = rng.usize_in(1, 4);
+                let mut pos = 0u64;
+                for _ in 0..n {
+                    pos += (l * rng.usize_in(1, 3)) as u64;
+                    let rel = if nearest {
+                        // keep 1/ratio dyadic: multiply by a power of two inside the range
+                        let p = if rng.chance(0.5) { 2.0 } else { 0.5 };
+                        if p <= a.max_rel && p >= 1.0 / a.max_rel {
+                            p
+                        } else {
+                            1.0
+                        }
+                    } else {
+                        gen_rel(&mut rng, &a, false)
+                    };
+                    steps.push((pos, rel));
+                }
+                profile = "aligned-ratio-steps";
+                // With an exactly rational ratio the read position lands exactly on the integer end-of-chunk
+                // threshold, and which side of it rounding puts the position (hence which frame is the first at
+                // the new ratio) legitimately depends on the partition. Generic ratios have no such ties.
+                if !nearest {
+                    a.ratio *= 1.0 + rng.uniform(1e-4, 1e-3);
+                    b.ratio = a.ratio;
+                }
+            }
+        }
+    }
+    // stream length under a work budget
+    let cost_a = call_cost(&a, a.max_rel) / a.chunk.max(1) as f64;
+    let cost_b = call_cost(&b, b.max_rel) / b.chunk.max(1) as f64;
+    let per_frame = match a.kind {
+        Kind::SincIn | Kind::FastIn | Kind::FftIn | Kind::FftInOut => cost_a + cost_b,
+        _ => (cost_a + cost_b) * a.nominal_ratio().max(0.1),
+    };
+    let afford = (tier_budget(tier) * 1.5 / per_frame.max(1.0)) as u64;
+    let min_frames = steps.last().map(|s| s.0 + 200).unwrap_or(0);
+    let want = rng.log_usize(200, q(tier, 20_000, 60_000)) as u64;
+    let frames = want.min(afford.max(300)).max(min_frames);
+    sc.config = a;
+    sc.signal = if rng.chance(0.7) { Signal::Noise { seed: rng.next() } } else { Signal::Impulses { seed: rng.next(), period: rng.usize_in(5, 300) as u32, floor: 0.1 } };
+    sc.profile = profile.to_string();
+    sc.twin = Twin::Chunking { config_b: b, frames, setchunk_a: sa, setchunk_b: sb, steps };
+    sc
+}
+
+/// Drive one partition of the stream: returns the trace.
+fn run_partition<T: crate::sut::Flt>(cfg: &Config, signal: &Signal, frames: u64, setchunk: &[usize], steps: &[(u64, f64)], by_output: bool) -> Trace {
+    let mut r = match Runner::<T>::new(cfg, signal, RunOpts::default()) {
+        Ok(r) => r,
+        Err(e) => {
+            let mut t = Trace::default();
+            t.construct_err = Some(e);
+            return t;
+        }
+    };
+    let mut k = 0usize;
+    let mut next_step = 0usize;
+    let mut calls = 0usize;
+    while r.trace.cursor < frames && calls < 200_000 {
+        let counter = if by_output { r.trace.total_out } else { r.trace.consumed };
+        while next_step < steps.len() && counter >= steps[next_step].0 {
+            if counter == steps[next_step].0 {
+                r.step(1_000_000 + next_step, &Op::SetRatio { rel: steps[next_step].1, ramp: false, relative_api: false });
+            }
+            next_step += 1;
+        }
+        if !setchunk.is_empty() {
+            r.step(2_000_000 + k, &Op::SetChunk { n: setchunk[k % setchunk.len()] });
+            k += 1;
+        }
+        r.step(calls, &Op::process());
+        calls += 1;
+        if r.dead() {
+            break;
+        }
+    }
+    r.finish()
+}
+
+fn eval_c05(sc: &Scenario) -> Outcome {
+    let mut out = Outcome::default();
+    let (cfg_b, frames, sa, sb, steps) = match &sc.twin {
+        Twin::Chunking { config_b, frames, setchunk_a, setchunk_b, steps } => (config_b.clone(), *frames, setchunk_a.clone(), setchunk_b.clone(), steps.clone()),
+        _ => return out,
+    };
+    let cfg_a = &sc.config;
+    let by_output = matches!(cfg_a.kind, Kind::SincOut | Kind::FastOut);
+    let go = |cfg: &Config, sch: &[usize]| -> Trace {
+        if cfg.f32 {
+            run_partition::<f32>(cfg, &sc.signal, frames, sch, &steps, by_output)
+        } else {
+            run_partition::<f64>(cfg, &sc.signal, frames, sch, &steps, by_output)
+        }
+    };
+    let a = go(cfg_a, &sa);
+    let fake_ops = vec![Op::process()];
+    absorb(&mut out, "C05", cfg_a, &fake_ops, &a, &[]);
+    if died(&mut out, "C05", &a, "partition A") {
+        return out;
+    }
+    let b = go(&cfg_b, &sb);
+    absorb(&mut out, "C05", &cfg_b, &fake_ops, &b, &[]);
+    if died(&mut out, "C05", &b, "partition B") {
+        return out;
+    }
+    out.cov.fault("F1_partition_twin", 1);
+    out.cov.fault("F1_chunk_change", (a.steps.iter().filter(|s| s.code == 5).count() + b.steps.iter().filter(|s| s.code == 5).count()) as u64);
+    out.cov.fault("F6_ratio_step", a.steps.iter().filter(|s| s.code == 3).count() as u64);
+    out.cov.calls = (a.steps.iter().filter(|s| s.code == 0).count() + b.steps.iter().filter(|s| s.code == 0).count()) as u64;
+    if cfg_b.kind != cfg_a.kind {
+        out.cov.probe("variant_twin", 1);
+    }
+    let nearest = (cfg_a.kind.is_sinc() && cfg_a.interp % 4 == 0) || (cfg_a.kind.is_fast() && cfg_a.degree % 5 == 0);
+    let tol = if nearest { 0.0 } else if cfg_a.f32 { 1e-4 } else { 1e-6 };
+    for c in 0..cfg_a.channels {
+        let ya = &a.out[c];
+        let yb = &b.out[c];
+        let n = ya.len().min(yb.len());
+        let peak = ya[..n].iter().fold(1.0f64, |m, v| m.max(v.abs()));
+        for k in 0..n {
+            let d = (ya[k] - yb[k]).abs();
+            if !(d <= tol * peak) {
+                let sa_ = a.steps.iter().rev().find(|s| s.out_before <= k as u64 && s.code == 0).map(|s| s.op).unwrap_or(0);
+                out.push(
+                    "C05",
+                    "streams-differ",
+                    sa_,
+                    format!("channel {} output frame {} (of common prefix {}): A[{} chunk {}] = {} vs B[{} chunk {} sub {}] = {}, |diff| {:e} > {:e}", c, k, n, cfg_a.kind.name(), cfg_a.chunk, ya[k], cfg_b.kind.name(), cfg_b.chunk, cfg_b.sub_chunks, yb[k], d, tol * peak),
+                );
+                return out;
+            }
+        }
+        out.cov.probe("frames_compared", n as u64);
+    }
+    out
+}
+
+// =======================================================================================
+// C06 continuous forward-only time warp
+// =======================================================================================
+
+fn gen_c06(seed: u64, tier: Tier) -> Scenario {
+    let (mut rng, mut sc) = base("C06", seed);
+    let dom = Dom {
+        kinds: vec![Kind::SincIn, Kind::SincOut, Kind::FastIn, Kind::FastOut],
+        edges: false,
+        masks: false,
+        max_channels: 2,
+        kernel: Kernel::Probe,
+        f32: Some(rng.chance(0.12)),
+        ..Dom::default()
+    };
+    sc.config = gen_config(&mut rng, &dom);
+    if sc.config.max_rel == 1.0 && rng.chance(0.8) {
+        sc.config.max_rel = rng.log_uniform(1.0, 16.0);
+    }
+    sc.signal = Signal::Index;
+    // keep the stream short enough for exact integer arithmetic in f32 position mode
+    let cap = if sc.config.f32 { 12 } else { q(tier, 60, 160) };
+    let mut n = ops_budget(&sc.config, tier_budget(tier), 4, cap, &mut rng);
+    if sc.config.f32 {
+        let per_call_in = match sc.config.kind {
+            Kind::SincIn | Kind::FastIn => sc.config.chunk as f64,
+            _ => sc.config.chunk as f64 / sc.config.ratio * sc.config.max_rel,
+        };
+        n = n.min(((30_000.0 / per_call_in.max(1.0)) as usize).max(3));
+    }
+    let mut m = OpMix::swarm(&mut rng, n);
+    m.w_partial = 0.0;
+    m.p_alt_path = 0.0;
+    m.w_ratio = rng.uniform(0.2, 0.8);
+    m.w_reset *= 0.3;
+    let (p, ops, t) = match rng.weighted(&[0.4, 0.35, 0.25]) {
+        0 => ("uniform".to_string(), gen_ops_uniform(&mut rng, &sc.config, &m), 0.0),
+        1 => ("adversarial".to_string(), gen_ops_adversarial(&mut rng, &sc.config, &m), 0.0),
+        _ => {
+            let (o, t) = gen_ops_ratematch(&mut rng, &sc.config, &m);
+            ("ratematch".to_string(), o, t)
+        }
+    };
+    // only full processing calls in position mode
+    let ops: Vec<Op> = ops
+        .into_iter()
+        .map(|o| match o {
+            Op::Process { slack_in, slack_out, slices, .. } => Op::Process { path: Path::IntoBuffer, valid: None, slack_in, slack_out, slices },
+            x => x,
+        })
+        .collect();
+    sc.profile = p;
+    sc.sim_seconds = t;
+    sc.ops = ops;
+    sc
+}
+
+fn eval_c06(sc: &Scenario) -> Outcome {
+    let mut out = Outcome::default();
+    let cfg = &sc.config;
+    let a = run_cfg(cfg, &sc.signal, &sc.ops, RunOpts { rewind_on_reset: true, ..Default::default() });
+    absorb(&mut out, "C06", cfg, &sc.ops, &a, &[]);
+    if died(&mut out, "C06", &a, "instance under test") {
+        return out;
+    }
+    if let Some(p) = &a.probe {
+        if let Some(b) = &p.bad_args {
+            out.push("C06", "probe-bad-args", 0, format!("interpolator asked for {}", b));
+            return out;
+        }
+        out.cov.probe("probe_calls", p.calls);
+        out.cov.probe("probe_poisoned_windows", p.poisoned);
+    }
+    let nearest = (cfg.kind.is_sinc() && cfg.interp % 4 == 0) || (cfg.kind.is_fast() && cfg.degree % 5 == 0);
+    let grid = if !nearest {
+        0.0
+    } else if cfg.kind.is_sinc() {
+        1.0 / cfg.oversampling as f64
+    } else {
+        1.0
+    };
+    // model of the ratio state
+    let orig = cfg.ratio;
+    let m = cfg.max_rel;
+    let mut cur = orig;
+    let mut target = orig;
+    let y = &a.out[0];
+    // other channels must report the same instants
+    for c in 1..cfg.channels {
+        if a.out[c] != a.out[0] {
+            out.push("C06", "channels-disagree-on-instants", 0, format!("channel {} recovered instants differ from channel 0", c));
+            return out;
+        }
+    }
+    let half = if cfg.kind.is_sinc() { 2.0 } else { 6.0 };
+    let mut prev: Option<f64> = None; // last instant (valid, past the transient)
+    let mut maxabs = 1.0f64;
+    let mut was_ramped_prev_call = false;
+    let _ = was_ramped_prev_call;
+    for s in &a.steps {
+        match (&sc.ops[s.op], &s.res) {
+            (Op::SetRatio { rel, ramp, relative_api }, StepRes::CtlOk) => {
+                let v = if *relative_api { (orig * *rel).max(orig / m) } else { (orig * *rel).clamp(orig / m, orig * m) };
+                target = v;
+                if !*ramp {
+                    cur = v;
+                }
+            }
+            (Op::Reset, StepRes::Reset) => {
+                cur = orig;
+                target = orig;
+                prev = None;
+            }
+            (Op::Process { .. }, StepRes::Proc { n_out, .. }) => {
+                let t_old = 1.0 / cur;
+                let t_new = 1.0 / target;
+                let ramped = t_old != t_new;
+                let (lo, hi) = (t_old.min(t_new), t_old.max(t_new));
+                let b0 = s.out_before as usize;
+                let mut last_sp: Option<f64> = None;
+                for j in 0..*n_out {
+                    let v = y[b0 + j];
+                    maxabs = maxabs.max(v.abs());
+                    let tol = if cfg.f32 { 8.0 * (f32::EPSILON as f64) * maxabs.max(64.0) } else { 1e-9 * maxabs.max(1.0) };
+                    if !(v >= half) {
+                        // start-up transient: window still overlaps the zero pre-roll
+                        if prev.is_some() {
+                            out.push("C06", "instant-not-increasing", s.op, format!("frame {} of the call (stream frame {}): recovered instant {} after {}", j, b0 + j, v, prev.unwrap()));
+                            return out;
+                        }
+                        continue;
+                    }
+                    if let Some(p) = prev {
+                        let sp = v - p;
+                        if nearest {
+                            if sp < -tol || sp < lo - grid - tol || sp > hi + grid + tol {
+                                out.push("C06", "spacing-out-of-band", s.op, format!("frame {} of the call (stream frame {}): quantised instants {} -> {}, spacing {} not in [{}, {}] +- grid {}", j, b0 + j, p, v, sp, lo, hi, grid));
+                                return out;
+                            }
+                        } else {
+                            if !(sp > 0.0) {
+                                out.push("C06", "instant-not-increasing", s.op, format!("frame {} of the call (stream frame {}): instant {} after {} (spacing {})", j, b0 + j, v, p, sp));
+                                return out;
+                            }
+                            if sp < lo * (1.0 - 1e-9) - tol || sp > hi * (1.0 + 1e-9) + tol {
+                                out.push(
+                                    "C06",
+                                    "spacing-out-of-band",
+                                    s.op,
+                                    format!("frame {} of the call (stream frame {}): instants {} -> {}, spacing {} outside [1/r_new, 1/r_old] = [{}, {}] ({}; a point computed over stale storage is offset by 1e3 times its weight)", j, b0 + j, p, v, sp, lo, hi, if ramped { "ramped call" } else { "constant-ratio call" }),
+                                );
+                                return out;
+                            }
+                            if ramped {
+                                // monotone from old towards new
+                                if let Some(l) = last_sp {
+                                    let dir = if t_new > t_old { 1.0 } else { -1.0 };
+                                    if (sp - l) * dir < -2.0 * tol {
+                                        out.push("C06", "ramp-not-monotone", s.op, format!("frame {} of the ramped call: spacing went {} -> {} while ramping {} -> {}", j, l, sp, t_old, t_new));
+                                        return out;
+                                    }
+                                }
+                            }
+                            last_sp = Some(sp);
+                        }
+                    }
+                    prev = Some(v);
+                }
+                if ramped {
+                    out.cov.probe("ramped_calls_checked", 1);
+                } else {
+                    out.cov.probe("constant_calls_checked", 1);
+                }
+                was_ramped_prev_call = ramped;
+                cur = target;
+            }
+            _ => {}
+        }
+    }
+    out
+}
+
+// =======================================================================================
+// C15 kernels
+// =======================================================================================
+
+fn gen_c15(seed: u64, tier: Tier) -> Scenario {
+    let (mut rng, mut sc) = base("C15", seed);
+    let dom = Dom { kinds: vec![Kind::SincIn, Kind::SincOut], edges: false, max_channels: 2, max_chunk: 512, ..Dom::default() };
+    sc.config = gen_config(&mut rng, &dom);
+    // all multiples of 8 up to 512, odd and even len/8
+    if rng.chance(0.7) {
+        sc.config.sinc_len = 8 * rng.usize_in(1, 64);
+    }
+    if sc.config.sinc_len * sc.config.oversampling > 32768 {
+        sc.config.oversampling = (32768 / sc.config.sinc_len).max(1);
+        if sc.config.oversampling == 1 && sc.config.interp >= 2 {
+            sc.config.interp = 1;
+        }
+    }
+    sc.signal = match rng.below(4) {
+        0 => Signal::Noise { seed: rng.next() },
+        1 => Signal::Impulses { seed: rng.next(), period: rng.usize_in(2, 40) as u32, floor: 0.0 },
+        2 => Signal::Wide { seed: rng.next() },
+        _ => Signal::Multisine { seed: rng.next() },
+    };
+    let n = ops_budget(&sc.config, tier_budget(tier) * 0.12, 3, q(tier, 24, 48), &mut rng);
+    let mut m = OpMix::swarm(&mut rng, n);
+    m.w_partial = 0.0;
+    m.p_alt_path = 0.0;
+    let (p, ops, t) = gen_history(&mut rng, &sc.config, &m);
+    sc.profile = format!("{}+kernels", p);
+    sc.sim_seconds = t;
+    sc.ops = ops;
+    sc.twin = Twin::Kernels {
+        variants: vec![(Kernel::Scalar, 0), (Kernel::Auto, 0), (Kernel::Auto, 2), (Kernel::Auto, 4), (Kernel::Auto, 6), (Kernel::Auto, 7), (Kernel::Sse, 0), (Kernel::Avx, 0), (Kernel::Cross, 0)],
+    };
+    sc
+}
+
+fn eval_c15(sc: &Scenario) -> Outcome {
+    let mut out = Outcome::default();
+    let variants = match &sc.twin {
+        Twin::Kernels { variants } => variants.clone(),
+        _ => return out,
+    };
+    let cfg = &sc.config;
+    let mut reference: Option<Trace> = None;
+    let len = cfg.sinc_len_rounded() as f64;
+    let eps = if cfg.f32 { f32::EPSILON as f64 } else { f64::EPSILON };
+    for (kernel, mask) in variants {
+        let mut c = cfg.clone();
+        c.kernel = kernel;
+        c.cpu_mask = mask;
+        let t = run_cfg(&c, &sc.signal, &sc.ops, RunOpts::default());
+        absorb(&mut out, "C15", &c, &sc.ops, &t, &[]);
+        if mask != 0 {
+            out.cov.fault("F9_cpu_feature_mask", 1);
+        }
+        out.cov.probe(&format!("variant_{:?}_mask{}", kernel, mask), 1);
+        if died(&mut out, "C15", &t, &format!("variant {:?} mask {}", kernel, mask)) {
+            return out;
+        }
+        if let Some(cl) = &t.cross {
+            out.cov.probe("kernel_calls_cross_checked", cl.compared);
+            out.cov.probe("kernel_calls_bound_skipped", cl.bound_skipped);
+            out.cov.probe("kernel_embed_checks", cl.embed_checks);
+            out.cov.probe(&format!("cross_kernels_{}", cl.kernels.join("+")), 1);
+            out.cov.probe("cross_worst_over_half_bound", (cl.worst > 0.5) as u64);
+            if let Some(v) = &cl.violation {
+                out.push("C15", "kernels-disagree", 0, v.clone());
+                return out;
+            }
+        }
+        match &reference {
+            None => reference = Some(t),
+            Some(r) => {
+                // identical control sequence
+                for (s, u) in r.steps.iter().zip(t.steps.iter()) {
+                    let same = match (&s.res, &u.res) {
+                        (StepRes::Proc { n_in: ai, n_out: ao }, StepRes::Proc { n_in: bi, n_out: bo }) => ai == bi && ao == bo,
+                        (x, y) => x == y,
+                    };
+                    if !same || s.post != u.post {
+                        out.push("C15", "dispatch-changes-counts", s.op, format!("scalar: {:?} {:?}; {:?} mask {}: {:?} {:?}", s.res, s.post, kernel, mask, u.res, u.post));
+                        return out;
+                    }
+                }
+                for ch in 0..cfg.channels {
+                    if !cfg.active(ch) {
+                        continue;
+                    }
+                    let ya = &r.out[ch];
+                    let yb = &t.out[ch];
+                    // local peak: the dynamic range signal needs a local scale
+                    let n = ya.len().min(yb.len());
+                    let w = (2.0 * len) as usize + 8;
+                    for k in 0..n {
+                        let lo = k.saturating_sub(w);
+                        let hi = (k + w).min(n);
+                        let _ = (lo, hi);
+                        let d = (ya[k] - yb[k]).abs();
+                        let scale = ya[k].abs().max(yb[k].abs());
+                        // summation-order bound propagated through the 4-point blend, relative to the local signal scale;
+                        // the per-call bound with the real products is checked by the cross-check kernel
+                        let peak = if matches!(sc.signal, Signal::Wide { .. }) { f64::INFINITY } else { 4.0 };
+                        let tol = 16.0 * len.max(16.0) * eps * peak.max(scale);
+                        if !(d <= tol) && !(ya[k].is_nan() && yb[k].is_nan()) {
+                            let step = r.steps.iter().rev().find(|s| s.out_before <= k as u64).map(|s| s.op).unwrap_or(0);
+                            out.push("C15", "stream-depends-on-kernel", step, format!("channel {} frame {}: scalar {} vs {:?} (cpu mask {}) {}, |diff| {:e} > {:e}", ch, k, ya[k], kernel, mask, yb[k], d, tol));
+                            return out;
+                        }
+                    }
+                }
+            }
+        }
+    }
+    out
+}
+
+// =======================================================================================
+// dispatch
+// =======================================================================================
+
+pub fn generate2(prop: &str, seed: u64, tier: Tier) -> Scenario {
+    match prop {
+        "C05" => gen_c05(seed, tier),
+        "C06" => gen_c06(seed, tier),
+        "C10" => gen_c10(seed, tier),
+        "C11" => gen_c11(seed, tier),
+        "C12" => gen_c12(seed, tier),
+        "C13" => gen_c13(seed, tier),
+        "C15" => gen_c15(seed, tier),
+        "C16" => gen_c16(seed, tier),
+        "C17" => gen_c17(seed, tier),
+        "C18" => crate::threads::gen_c18(seed, tier),
+        _ => panic!("no generator for {}", prop),
+    }
 }
 
 pub fn evaluate2(sc: &Scenario) -> Outcome {
-    panic!("no driver for {}", sc.property)
+    match sc.property.as_str() {
+        "C05" => eval_c05(sc),
+        "C06" => eval_c06(sc),
+        "C10" => eval_c10(sc),
+        "C11" => eval_c11(sc),
+        "C12" => eval_c12(sc),
+        "C13" => eval_c13(sc),
+        "C15" => eval_c15(sc),
+        "C16" => eval_c16(sc),
+        "C17" => eval_c17(sc),
+        "C18" => crate::threads::eval_c18(sc),
+        _ => panic!("no driver for {}", sc.property),
+    }
 }
